@@ -14,7 +14,8 @@
 (*   each complete behaviour as a script for `tpv rename-run` (spec -> implementation).    *)
 EXTENDS Rename, Json, IOUtils
 
-CONSTANTS Mode, NScopes, NameSeq, MaxDecls, MaxRefs, MaxReqs, ExportScripts
+CONSTANTS Mode, NScopes, NameSeq, MaxDecls, MaxRefs, MaxReqs, ExportScripts,
+          AllowHomonyms    \* mode "skel": may the name of a unit (POU, method, type, namespace) be used twice?
 
 VARIABLES sk,       \* index of the skeleton (0 in mode "all")
           names,    \* names chosen so far, by declaration slot
@@ -27,6 +28,8 @@ View == <<proj, orig, pc, req, target, edits, sk, names, nreq>>
 Names2 == <<"a", "b">>
 Names3 == <<"a", "b", "c">>
 Names4 == <<"a", "b", "c", "d">>
+Names6 == <<"a", "b", "c", "d", "e", "f">>
+Names8 == <<"a", "b", "c", "d", "e", "f", "g", "h">>
 Names == {NameSeq[i] : i \in DOMAIN NameSeq}
 NN == Len(NameSeq)
 
@@ -55,7 +58,7 @@ Skels == ndJsonDeserialize(IOEnv.SKEL)
 S == Skels[sk]
 ND == Len(S.decls)
 SkelProject(nm) ==
-  [par |-> S.par,
+  [par |-> [i \in 1..Len(S.scopes) |-> S.scopes[i].parent],
    decls |-> {[id |-> i, scope |-> S.decls[i].scope, name |-> nm[i], kind |-> S.decls[i].kind] : i \in 1..Len(S.decls)},
    refs |-> {[id |-> j, site |-> S.refs[j].site, name |-> nm[S.refs[j].tgt], mode |-> S.refs[j].mode, role |-> S.refs[j].role] : j \in 1..Len(S.refs)}]
 \* every reference denotes the declaration it is meant to denote ("fully resolved project")
@@ -68,6 +71,8 @@ AssignName ==
   /\ pc = "build" /\ Len(names) < ND
   /\ \E n \in Names :
        /\ \A i \in 1..Len(names) : S.decls[i].scope = S.decls[Len(names) + 1].scope => names[i] # n
+       /\ AllowHomonyms \/ \A i \in 1..Len(names) :
+             (S.decls[i].owns # 0 \/ S.decls[Len(names) + 1].owns # 0) => names[i] # n
        /\ names' = Append(names, n)
   /\ IF Len(names') = ND
      THEN LET p == SkelProject(names') IN
@@ -85,15 +90,29 @@ DoRequest == \E o \in Occurrences(proj), nn \in NewNames :
   /\ nreq < MaxReqs /\ Request(o, nn.n, nn.cls)
   /\ hist' = Append(hist, [t |-> o.t, id |-> o.id, new |-> nn.n, cls |-> nn.cls])
   /\ nreq' = nreq + 1 /\ UNCHANGED <<sk, names>>
+\* the phases of Rename, one action each (so that TLC's coverage shows every one was taken)
+Keep == UNCHANGED <<sk, names, hist, nreq>>
+DoResolveTarget == ResolveTarget /\ Keep
+DoValidate      == Validate /\ Keep
+DoConflictCheck == ConflictCheck /\ Keep
+DoCollect       == Collect /\ Keep
+DoApply         == Apply /\ Keep
+DoRenameBack    == RenameBack /\ Keep
+DoRefused       == Refused /\ Keep
 Next == \/ AssignName
         \/ DoRequest
-        \/ Phases /\ UNCHANGED <<sk, names, hist, nreq>>
+        \/ DoResolveTarget \/ DoValidate \/ DoConflictCheck \/ DoCollect \/ DoApply \/ DoRenameBack \/ DoRefused
 Spec == Init /\ [][Next]_mvars
+
+\* the two statements about the conflict check do not depend on the phase: evaluated once per
+\* project (they are the expensive ones)
+SafeIsExactOnce == (pc = "idle" /\ nreq = 0) => SafeIsExact
+CaseVariantIsSafeOnce == (pc = "idle" /\ nreq = 0) => CaseVariantIsSafe
 
 \* ------------------------------------------------------------------ sanity of the model itself
 \* a check of the declaring scope alone is NOT enough (expected to be violated: see
 \* MCRename_declscope.cfg, which the check runs to show that the model distinguishes the two)
-DeclScopeSuffices == \A d \in proj.decls, new \in Names :
+DeclScopeSuffices == (pc = "idle" /\ nreq = 0) => \A d \in proj.decls, new \in Names :
                         DeclaringScopeOnly(proj, d, new) => Preserved(proj, Renamed(proj, d.id, new))
 
 \* ------------------------------------------------------------------ export (spec -> impl)
